@@ -366,6 +366,23 @@ def write_replay(ctx, kind, payload):
     return path
 
 
+def restore_generated(pid, repo):
+    """After a check of another tree (VERIF_REPO=<scratch copy>) the translated files under coq/gen are put back to what
+    /repo says, so that a later full build or a check of another property does not see the other tree's tables."""
+    if os.path.realpath(repo) == os.path.realpath("/repo") or not os.path.isdir("/repo"):
+        return
+    try:
+        prop = load_prop(pid)
+        if not hasattr(prop, "translate"):
+            return
+        ctx = Ctx(pid, "quick", 0, "/repo")
+        with BuildLock():
+            for rel, text in prop.translate(ctx).items():
+                write_if_changed(os.path.join(COQ, rel), text)
+    except Exception:
+        pass
+
+
 def run_check(pid, tier, seed, repo, replay=None):
     ctx = Ctx(pid, tier, seed, repo)
     prop = load_prop(pid)
@@ -703,7 +720,9 @@ def main(argv):
     seed = int(os.environ.get("VERIF_SEED", "0") or 0)
     repo = os.environ.get("VERIF_REPO", "/repo")
     try:
-        return run_check(pid, tier, seed, repo, replay)
+        rc = run_check(pid, tier, seed, repo, replay)
+        restore_generated(pid, repo)
+        return rc
     except Exception:
         import traceback
         traceback.print_exc()
